@@ -9,24 +9,34 @@ CACHE = os.path.join(HERE, '.cache')
 
 
 def build():
-    crate = os.path.join(CACHE, 'replay-crate')
-    os.makedirs(os.path.join(crate, 'src'), exist_ok=True)
-    toml = open(os.path.join(HERE, 'replay', 'Cargo.toml.in')).read().replace('@REPO@', REPO)
-    if not os.path.exists(os.path.join(crate, 'Cargo.toml')) or open(os.path.join(crate, 'Cargo.toml')).read() != toml:
-        open(os.path.join(crate, 'Cargo.toml'), 'w').write(toml)
-    for f in os.listdir(os.path.join(HERE, 'replay', 'src')):
-        shutil.copy(os.path.join(HERE, 'replay', 'src', f), os.path.join(crate, 'src', f))
-    for f in ('rust-toolchain', 'Cargo.lock'):
-        src = os.path.join(REPO, f)
-        if os.path.exists(src) and not (f == 'Cargo.lock' and os.path.exists(os.path.join(crate, f))):
-            shutil.copy(src, os.path.join(crate, f))
-    os.makedirs(os.path.join(crate, '.cargo'), exist_ok=True)
-    open(os.path.join(crate, '.cargo', 'config.toml'), 'w').write("[build]\nrustflags = ['--cfg', 'tokio_unstable']\n[net]\noffline = true\n")
-    env = dict(os.environ, CARGO_NET_OFFLINE='true', CARGO_TARGET_DIR=os.path.join(CACHE, 'replay-target'))
-    p = subprocess.run(['cargo', 'build', '--offline', '-q'], cwd=crate, env=env, capture_output=True, text=True, timeout=3600)
-    if p.returncode != 0:
-        raise RuntimeError('replay crate does not build: ' + p.stderr[-1500:])
-    return os.path.join(CACHE, 'replay-target', 'debug', 'verif-replay')
+    """Build the replay crate against the tree under check. Checks of different trees may run concurrently (seeded runs):
+    the shared crate/target directories are used under a file lock and the binary is copied to a per-tree path."""
+    import fcntl, hashlib
+    os.makedirs(CACHE, exist_ok=True)
+    tag = hashlib.sha1(os.path.realpath(REPO).encode()).hexdigest()[:10]
+    out = os.path.join(CACHE, f'verif-replay-{tag}')
+    with open(os.path.join(CACHE, 'replay.lock'), 'w') as lk:
+        fcntl.flock(lk, fcntl.LOCK_EX)
+        crate = os.path.join(CACHE, 'replay-crate')
+        os.makedirs(os.path.join(crate, 'src'), exist_ok=True)
+        toml = open(os.path.join(HERE, 'replay', 'Cargo.toml.in')).read().replace('@REPO@', REPO)
+        if not os.path.exists(os.path.join(crate, 'Cargo.toml')) or open(os.path.join(crate, 'Cargo.toml')).read() != toml:
+            open(os.path.join(crate, 'Cargo.toml'), 'w').write(toml)
+        for f in os.listdir(os.path.join(HERE, 'replay', 'src')):
+            shutil.copy(os.path.join(HERE, 'replay', 'src', f), os.path.join(crate, 'src', f))
+        for f in ('rust-toolchain', 'Cargo.lock'):
+            src = os.path.join(REPO, f)
+            if os.path.exists(src) and not (f == 'Cargo.lock' and os.path.exists(os.path.join(crate, f))):
+                shutil.copy(src, os.path.join(crate, f))
+        os.makedirs(os.path.join(crate, '.cargo'), exist_ok=True)
+        open(os.path.join(crate, '.cargo', 'config.toml'), 'w').write("[build]\nrustflags = ['--cfg', 'tokio_unstable']\n[net]\noffline = true\n")
+        env = dict(os.environ, CARGO_NET_OFFLINE='true', CARGO_TARGET_DIR=os.path.join(CACHE, 'replay-target'))
+        p = subprocess.run(['cargo', 'build', '--offline', '-q'], cwd=crate, env=env, capture_output=True, text=True, timeout=3600)
+        if p.returncode != 0:
+            raise RuntimeError('replay crate does not build: ' + p.stderr[-1500:])
+        shutil.copy(os.path.join(CACHE, 'replay-target', 'debug', 'verif-replay'), out + '.tmp')
+        os.replace(out + '.tmp', out)
+    return out
 
 
 def run(args, timeout=3600, env=None):
